@@ -49,10 +49,17 @@ class Machine:
 
     @property
     def sp(self):
-        return self.regs[self.sp_name]
+        v = self.regs[self.sp_name]
+        if not isinstance(v, int):
+            raise Fault(f"the stack pointer holds {v!r}, not an address")
+        return v
 
     @sp.setter
     def sp(self, v):
+        if not isinstance(v, int):
+            # the code loaded something that is not an address into SP
+            self.regs[self.sp_name] = v
+            return
         self.regs[self.sp_name] = v & self.mask
 
     def store(self, addr, value, size):
@@ -141,6 +148,8 @@ class X86:
             b = self.reg(insn, mem.base)
             v = m.regs[b]
             if not isinstance(v, int):
+                if isinstance(v, tuple) and v and v[0] in ("garbage", "havoc", "scribbled"):
+                    raise Fault(f"memory access through {b} which holds {v!r}")
                 raise Unknown(f"memory access through symbolic register {b}")
             return (v + mem.disp) & m.mask
 
@@ -204,6 +213,8 @@ class X86:
             if dst.type != X.X86_OP_REG or src.type != X.X86_OP_IMM:
                 raise Unknown(insn.op_str)
             r = self.reg(insn, dst.reg)
+            if not isinstance(m.regs[r], int):
+                raise Fault(f"arithmetic on {r} which holds {m.regs[r]!r}")
             m.regs[r] = m.regs[r] & (src.imm & m.mask)
             m.flags = fresh()
         elif mn in ("sub", "subq", "subl", "add", "addq", "addl"):
@@ -212,6 +223,8 @@ class X86:
                 raise Unknown(insn.op_str)
             r = self.reg(insn, dst.reg)
             delta = src.imm if mn.startswith("add") else -src.imm
+            if not isinstance(m.regs[r], int):
+                raise Fault(f"arithmetic on {r} which holds {m.regs[r]!r}")
             m.regs[r] = (m.regs[r] + delta) & m.mask
             m.flags = fresh()
         elif mn in ("call", "callq", "calll"):
